@@ -25,6 +25,8 @@ prop('T03', units=['cache'], assumptions=[A_VERUS, A_EXTRACT], not_covered=[], r
 
 prop('T04', units=['ptr'], assumptions=[A_VERUS, A_EXTRACT], not_covered=[], replay=None)
 
+prop('T05', units=['order'], assumptions=[A_VERUS, A_EXTRACT], not_covered=[], replay=None)
+
 
 def proved_includes(root):
     """set of inc/*.rs files that some unit template includes non-assumed"""
